@@ -20,7 +20,7 @@ pub fn property() -> Property {
     Property {
         id: "C13",
         level: "fault_enumeration",
-        rule: "Real loopback sockets; peers are harness threads with scripted stalls. Stall point in {upload not read (8 MiB body), inside the status line, between header lines, after the blank line, after k body bytes (length / close framing), inside a chunk-size line, inside chunk data, before the terminal chunk, during the TLS handshake of a direct https dial, inside the CONNECT reply, inside the tunnel} x {silent stall, one byte every R/3} x timeouts {T=300 ms, T=150 ms, T=300 ms + R=100 ms, R=150 ms alone, T=0 (deadline already expired when the connection is made), T=20 s + R=150 ms (the read timeout must fire although an overall timeout is set), R=0 alone (boundary value: every stall is longer than it; the call ends with an error at once, it must not turn into 'no read timeout')} and redirect chains of fast hops that together exceed T. 'peer-failures-before-deadline': hang-up or early 413 during a 16 MiB upload, reset after the request, close inside the head / inside the body, with T = 20 s / Duration::MAX / none: an error that comes seconds before the deadline is not of a timeout kind. Oracle: (a) the call returns Err within T (or R) + 1.5 s although the peer would hold it for 20 s; (d) the first end-of-body signal is never Ok for a body the peer had not finished; (c) converse histories (T in {1.5 s, 10 s, 2^62 s, Duration::MAX}) - complete responses of every framing, read with loops of several buffer sizes plus up to 5 further reads after end-of-body spread over 200 ms - never see TimedOut (nor any error) before t0+T; (e) 250 ms after the response/error is dropped the process has no more threads or file descriptors than before the case. Hook H3 (schedule points in the watchdog thread and around the reader's end-of-stream ping) holds either thread at each label in turn (<= 400 ms) for the scenarios {genuine end of stream before the deadline, stall cut by the deadline} x {close-delimited, length-delimited}; the recorded label sequences are the distinct interleavings observed; 'stale watchdog' scenarios hold the watchdog of a finished, dropped request at wd.wake / wd.dropped / wd.shutdown while the NEXT request (T = 30 s) runs and release it in the middle of that body, which must arrive complete; 'retrying caller' scenarios (R = 150 ms < T): a caller that reads again after every read-timeout error is still cut at T + margin when the peer has gone silent, and still receives a response that resumes and completes before T. Resource fault 'fd-exhaustion': RLIMIT_NOFILE is lowered and the descriptor table filled so that k in {0,1,2,3} slots are free when the connection is made (k=1: the socket can be opened, the watchdog's own handle on it cannot) against a listener that never answers: the call still returns within T + margin. Load probe: a case whose 20 ms sleep oversleeps by > 150 ms is retried (x3) and then counted inconclusive, never as a violation. Non-trivial: every scenario; distinct = hash(scenario).",
+        rule: "Real loopback sockets; peers are harness threads with scripted stalls. Stall point in {upload not read (8 MiB body), inside the status line, between header lines, after the blank line, after k body bytes (length / close framing), inside a chunk-size line, inside chunk data, before the terminal chunk, during the TLS handshake of a direct https dial, inside the CONNECT reply, inside the tunnel} x {silent stall, one byte every R/3} x timeouts {T=300 ms, T=150 ms, T=300 ms + R=100 ms, R=150 ms alone, T=0 (deadline already expired when the connection is made), T=20 s + R=150 ms (the read timeout must fire although an overall timeout is set), R=0 alone (boundary value: every stall is longer than it; the call ends with an error at once, it must not turn into 'no read timeout')} and redirect chains of fast hops that together exceed T. 'peer-failures-before-deadline': hang-up or early 413 during a 16 MiB upload, reset after the request, close inside the head / inside the body, with T = 20 s / Duration::MAX / none: an error that comes seconds before the deadline is not of a timeout kind. 'deadline-passes-after-the-head': the complete response is on the wire 250 ms after the request, the calling thread is then held on the library's `status code` log record until T has passed - send() is Ok and the body readable (judged only when the server's write time shows the response was sent in time); 'completed-then-late-reads': a response that completed before T = 500 ms is read again 300 ms after T (three framings, Response and reader half of split(), with and without a logger whose records take 2 ms): still the end of the body. Oracle: (a) the call returns Err within T (or R) + 1.5 s although the peer would hold it for 20 s; (d) the first end-of-body signal is never Ok for a body the peer had not finished; (c) converse histories (T in {1.5 s, 10 s, 2^62 s, Duration::MAX}) - complete responses of every framing, read with loops of several buffer sizes plus up to 5 further reads after end-of-body spread over 200 ms - never see TimedOut (nor any error) before t0+T; (e) 250 ms after the response/error is dropped the process has no more threads or file descriptors than before the case. Hook H3 (schedule points in the watchdog thread and around the reader's end-of-stream ping) holds either thread at each label in turn (<= 400 ms) for the scenarios {genuine end of stream before the deadline, stall cut by the deadline} x {close-delimited, length-delimited}; the recorded label sequences are the distinct interleavings observed; 'stale watchdog' scenarios hold the watchdog of a finished, dropped request at wd.wake / wd.dropped / wd.shutdown while the NEXT request (T = 30 s) runs and release it in the middle of that body, which must arrive complete; 'retrying caller' scenarios (R = 150 ms < T): a caller that reads again after every read-timeout error is still cut at T + margin when the peer has gone silent, and still receives a response that resumes and completes before T. Resource fault 'fd-exhaustion': RLIMIT_NOFILE is lowered and the descriptor table filled so that k in {0,1,2,3} slots are free when the connection is made (k=1: the socket can be opened, the watchdog's own handle on it cannot) against a listener that never answers: the call still returns within T + margin. Load probe: a case whose 20 ms sleep oversleeps by > 150 ms is retried (x3) and then counted inconclusive, never as a violation. Non-trivial: every scenario; distinct = hash(scenario).",
         assumptions: &["the connect phase is outside the statement and not judged", "Linux loopback; Windows branches are not run", "reads issued only after T has passed are not judged (the exchange as a whole exceeded T)"],
         min_nontrivial: |t| t.pick(60, 400),
         gens,
@@ -34,6 +34,7 @@ fn gens(tier: Tier) -> Vec<Gen> {
         Gen { name: "stalls", count: stall_count(tier), exhaustive: tier == Tier::Thorough, run: run_stall },
         Gen { name: "converse", count: tier.pick(24, 400), exhaustive: false, run: run_converse },
         Gen { name: "peer-failures-before-deadline", count: (5 * 3) as u64, exhaustive: true, run: run_peer_failures },
+        Gen { name: "deadline-passes-after-the-head", count: 4, exhaustive: true, run: run_deadline_after_head },
         Gen { name: "completed-then-late-reads", count: (3 * 2 * 2) as u64, exhaustive: true, run: run_late_reads },
         Gen { name: "interleavings", count: (2 * 2 * 6) as u64, exhaustive: true, run: run_interleaving },
         Gen { name: "retrying-caller", count: (3 * 2 * 2) as u64, exhaustive: true, run: run_retrying_caller },
@@ -443,6 +444,61 @@ fn run_converse(ctx: &mut Ctx, rng: &mut Rng, index: u64) {
     ctx.nontrivial(format!("converse{index}{framing}{t_ms}{sizes:?}{extra}").as_bytes());
     let fname = ["length", "chunked", "close"][framing as usize];
     ctx.sample(|| json!({"framing": fname, "payload": payload.len(), "T_ms": t_ms, "further_reads": extra}));
+}
+
+/// the whole response arrives well inside the deadline, but the calling thread is then held up (a
+/// logger that takes 600 ms to write the "status code" record, standing in for any descheduling
+/// between reading the head and returning) until the deadline has passed: the response completed
+/// before the deadline, so it is delivered - send() Ok, the body that had arrived readable
+fn run_deadline_after_head(ctx: &mut Ctx, _rng: &mut Rng, index: u64) {
+    let framing = (index % 2) as usize;
+    let via_redirect = (index / 2) % 2 == 1;
+    let wire: Vec<u8> = match framing {
+        0 => b"HTTP/1.1 200 OK\r\nContent-Length: 5\r\n\r\nhello".to_vec(),
+        _ => b"HTTP/1.1 200 OK\r\nTransfer-Encoding: chunked\r\n\r\n5\r\nhello\r\n0\r\n\r\n".to_vec(),
+    };
+    let wrote_at: Arc<Mutex<Option<Instant>>> = Arc::new(Mutex::new(None));
+    let wrote_at2 = wrote_at.clone();
+    let server: Server<()> = Server::spawn(move |mut s: TcpStream| {
+        let head = read_head(&mut s);
+        if via_redirect && head.starts_with(b"GET /first") {
+            write_all_ignore(&mut s, b"HTTP/1.1 302 Found\r\nLocation: /second\r\nContent-Length: 0\r\n\r\n");
+            return;
+        }
+        std::thread::sleep(Duration::from_millis(250));
+        write_all_ignore(&mut s, &wire);
+        *wrote_at2.lock().unwrap() = Some(Instant::now());
+    });
+    crate::monitors::set_logging(true);
+    // (with a redirect the first hop's "status code" record is held up too: 2 x 400 ms under T = 1 s)
+    crate::monitors::set_log_delay_for("status code", if via_redirect { 400_000 } else { 600_000 });
+    let t0 = Instant::now();
+    let t = Duration::from_millis(if via_redirect { 1000 } else { 700 });
+    let res = attohttpc::get(format!("http://127.0.0.1:{}/{}", server.port, if via_redirect { "first" } else { "second" })).timeout(t).read_timeout(Duration::from_secs(10)).send();
+    let returned = t0.elapsed();
+    let outcome = match res {
+        Err(e) => Err(format!("send: {e:?}")),
+        Ok(mut resp) => {
+            let mut body = Vec::new();
+            match resp.read_to_end(&mut body) {
+                Ok(_) => Ok(body),
+                Err(e) => Err(format!("read: {:?}: {e} after {} body bytes", e.kind(), body.len())),
+            }
+        }
+    };
+    crate::monitors::set_log_delay_us(0);
+    crate::monitors::set_logging(false);
+    drop(server);
+    let descr = format!("the complete response ({}) is sent 250 ms after the request{}, T = {t:?}; the logger holds the calling thread on the 'status code' record; send() returned after {returned:?}: {:?}", ["Content-Length", "chunked"][framing], if via_redirect { " (second hop of a 302)" } else { "" }, outcome.as_ref().map(|b| String::from_utf8_lossy(b).into_owned()));
+    ctx.count("deadline_passes_between_head_and_return", 1);
+    // (the verdict needs the response to have been on the wire well before the deadline)
+    let sent_in_time = wrote_at.lock().unwrap().map_or(false, |w| w.duration_since(t0) < t - Duration::from_millis(150));
+    if returned < t || !sent_in_time {
+        ctx.inconclusive(format!("the timing of the scenario was not met (response sent in time: {sent_in_time}): {descr}"));
+    } else if outcome.as_deref() != Ok(&b"hello"[..]) {
+        ctx.violation("completed-response-reported-as-failed:deadline-passed-after-the-head", descr);
+    }
+    ctx.nontrivial(format!("dah{index}").as_bytes());
 }
 
 /// a response that completed long before a SHORT deadline, kept by the caller and read again after
